@@ -28,4 +28,4 @@ for p in $CHECKS; do
   echo "check $p: $x"
   res="$res\"$p\": \"$x\", "
 done
-echo "{\"demo_without_change\": \"$demo_without\", \"demo_with_change\": \"$demo_with\", \"suite_with_change\": \"$suite\", \"checks\": {${res%, }}}" > $OUT/eval.json
+tr -d "\t" <<< "{\"demo_without_change\": \"$demo_without\", \"demo_with_change\": \"$demo_with\", \"suite_with_change\": \"$suite\", \"checks\": {${res%, }}}" > $OUT/eval.json
